@@ -1525,4 +1525,44 @@ def argTypeFlag : Conv → Nat
   | .float => ArgFlags.FLOAT
 
 
+/-! ### `AlphaOK` is decided by `alphaTableOK` on a table of the interpreter's answers -/
+
+theorem nameChar_lt (c : Char) (h : nameChar c = true) : c.toNat < 128 := by
+  simp only [nameChar, isAsciiLetter, isAsciiDigit, Bool.or_eq_true, Bool.and_eq_true, decide_eq_true_eq,
+    beq_iff_eq] at h
+  rcases h with (h | h) | h
+  · omega
+  · omega
+  · subst h; decide
+
+theorem mem_nameCharList (c : Char) (h : nameChar c = true) : c ∈ nameCharList := by
+  simp only [nameCharList, List.mem_filter, List.mem_map, List.mem_range]
+  exact ⟨⟨c.toNat, nameChar_lt c h, Char.ofNat_toNat c⟩, h⟩
+
+/-- every `isalpha` that answers as the table says on the 63 name characters satisfies `AlphaOK`
+when the table passes the decider -/
+theorem alphaOK_of_table (tbl : List (Char × Bool)) (alpha : Char → Bool)
+    (hag : ∀ c ∈ nameCharList, tbl.lookup c = some (alpha c)) (h : alphaTableOK tbl = true) : AlphaOK alpha := by
+  intro c hc
+  have hm := mem_nameCharList c hc
+  have := List.all_eq_true.1 h c hm
+  rw [hag c hm] at this
+  simpa using this
+
+theorem alphaOfTable_agrees (tbl : List (Char × Bool)) (h : alphaTableOK tbl = true) :
+    ∀ c ∈ nameCharList, tbl.lookup c = some (alphaOfTable tbl c) := by
+  intro c hm
+  have := List.all_eq_true.1 h c hm
+  simp only [beq_iff_eq] at this
+  simp [alphaOfTable, this]
+
+/-- the other direction: a table whose `isalpha` is `AlphaOK` and which lists all 63 characters passes -/
+theorem alphaTableOK_of_alphaOK (tbl : List (Char × Bool)) (alpha : Char → Bool)
+    (hag : ∀ c ∈ nameCharList, tbl.lookup c = some (alpha c)) (h : AlphaOK alpha) : alphaTableOK tbl = true := by
+  apply List.all_eq_true.2
+  intro c hm
+  have hc : nameChar c = true := by
+    simp only [nameCharList, List.mem_filter] at hm; exact hm.2
+  rw [hag c hm, h c hc]; simp
+
 end Clikit.Flags
